@@ -1,0 +1,125 @@
+//go:build verif
+
+// Contracts for package utils, read by /verif/govc (contract-based deductive verification).
+// Comments and pure specification functions only; compiled only with -tags verif.
+package utils
+
+// spec_unpack is the natural reading of "look (i,j) up through the packed arrays": offset, bounds,
+// check vector, else the blank value 0.
+func spec_unpack(T []int, D []int, C []int, i int, j int) int {
+	if D[i]+j < 0 || D[i]+j >= len(C) || C[D[i]+j] != i {
+		return 0
+	}
+	return T[D[i]+j]
+}
+
+//@ func UnPackTable
+//@ props C05
+//@ results table
+//@ requires rows >= 0 && cols >= 0 && len(D) <= rows && len(T) >= len(C)
+//@ ensures len(table) == rows
+//@ ensures forall i int :: 0 <= i && i < rows ==> len(table[i]) == cols
+//@ ensures [C05] forall i, j int :: 0 <= i && i < len(D) && 0 <= j && j < cols ==> table[i][j] == spec_unpack(T, D, C, i, j)
+//@ ensures forall i, j int :: len(D) <= i && i < rows && 0 <= j && j < cols ==> table[i][j] == 0
+//@ modifies nothing
+//@ loop 0: invariant 0 <= i && i <= len(table) && len(table) == rows
+//@ loop 0: invariant forall k int :: 0 <= k && k < i ==> len(table[k]) == cols
+//@ loop 0: invariant forall k, j int :: 0 <= k && k < i && 0 <= j && j < cols ==> table[k][j] == 0
+//@ loop 0: decreases len(table) - i
+//@ loop 1: invariant 0 <= i && i <= len(D) && len(table) == rows
+//@ loop 1: invariant forall k int :: 0 <= k && k < rows ==> len(table[k]) == cols
+//@ loop 1: invariant forall k, j int :: 0 <= k && k < i && 0 <= j && j < cols ==> table[k][j] == spec_unpack(T, D, C, k, j)
+//@ loop 1: invariant forall k, j int :: i <= k && k < rows && 0 <= j && j < cols ==> table[k][j] == 0
+//@ loop 1: decreases len(D) - i
+//@ loop 2: invariant 0 <= j && j <= cols && 0 <= i && i < len(D) && len(table) == rows
+//@ loop 2: invariant forall k int :: 0 <= k && k < rows ==> len(table[k]) == cols
+//@ loop 2: invariant forall k, j2 int :: 0 <= k && k < i && 0 <= j2 && j2 < cols ==> table[k][j2] == spec_unpack(T, D, C, k, j2)
+//@ loop 2: invariant forall j2 int :: 0 <= j2 && j2 < j ==> table[i][j2] == spec_unpack(T, D, C, i, j2)
+//@ loop 2: invariant forall k, j2 int :: i < k && k < rows && 0 <= j2 && j2 < cols ==> table[k][j2] == 0
+//@ loop 2: decreases cols - j
+
+// spec_nz: column k of row i holds a non-blank entry.
+func spec_nz(table [][]int, i int, k int) bool {
+	return 0 <= k && k < len(table[0]) && table[i][k] != 0
+}
+
+//@ func PackTable
+//@ props C05
+//@ results ret, row, check
+//@ requires len(table) >= 1
+//@ requires forall i int :: 0 <= i && i < len(table) ==> len(table[i]) == len(table[0])
+//@ ensures len(row) == len(table) && len(ret) == len(check)
+//@ ensures [C05] forall i, j int :: 0 <= i && i < len(table) && spec_nz(table, i, j) ==>
+//@     0 <= row[i]+j && row[i]+j < len(check) && check[row[i]+j] == i && ret[row[i]+j] == table[i][j]
+//@ ensures [C05] forall i, j int :: 0 <= i && i < len(table) && 0 <= j && j < len(table[0]) && table[i][j] == 0 ==>
+//@     row[i]+j < 0 || row[i]+j >= len(check) || check[row[i]+j] != i
+//@ modifies nothing
+//
+// step 1: count (the counts only influence the packing order, never the result's correctness)
+//@ loop 0: invariant 0 <= i && i <= len(table) && len(rowCount) == i && len(row) == i
+//@ loop 0: invariant forall t int :: 0 <= t && t < i ==> is_int(rowCount[t].a) && as_int(rowCount[t].a) == t && is_int(rowCount[t].b)
+//@ loop 0: decreases len(table) - i
+//@ loop 1: invariant 0 <= j && j <= len(table[i]) && 0 <= i && i < len(table) && len(rowCount) == i+1 && len(row) == i
+//@ loop 1: invariant forall t int :: 0 <= t && t <= i ==> is_int(rowCount[t].a) && as_int(rowCount[t].a) == t && is_int(rowCount[t].b)
+//@ loop 1: decreases len(table[i]) - j
+//
+// step 2: nonZeroPos[i] lists exactly the non-blank columns of row i
+//@ loop 2: invariant 0 <= i && i <= len(table)
+//@ loop 2: invariant forall i2 int :: has(nonZeroPos, i2) ==> 0 <= i2 && i2 < i
+//@ loop 2: invariant forall i2, u int :: 0 <= i2 && i2 < len(table) && 0 <= u && u < len(nonZeroPos[i2]) ==> spec_nz(table, i2, nonZeroPos[i2][u])
+//@ loop 2: invariant forall i2, k int :: 0 <= i2 && i2 < i && spec_nz(table, i2, k) ==> (exists u int :: 0 <= u && u < len(nonZeroPos[i2]) && nonZeroPos[i2][u] == k)
+//@ loop 2: decreases len(table) - i
+//@ loop 3: invariant 0 <= j && j <= len(table[i]) && 0 <= i && i < len(table)
+//@ loop 3: invariant forall i2 int :: has(nonZeroPos, i2) ==> 0 <= i2 && i2 <= i
+//@ loop 3: invariant forall i2, u int :: 0 <= i2 && i2 < len(table) && 0 <= u && u < len(nonZeroPos[i2]) ==> spec_nz(table, i2, nonZeroPos[i2][u])
+//@ loop 3: invariant forall i2, k int :: 0 <= i2 && i2 < i && spec_nz(table, i2, k) ==> (exists u int :: 0 <= u && u < len(nonZeroPos[i2]) && nonZeroPos[i2][u] == k)
+//@ loop 3: invariant forall k int :: 0 <= k && k < j && spec_nz(table, i, k) ==> (exists u int :: 0 <= u && u < len(nonZeroPos[i]) && nonZeroPos[i][u] == k)
+//@ loop 3: decreases len(table[i]) - j
+//
+// step 3: first-fit placement, rows in sorted order; rowCount[t].a == perm(t) after the sort.
+// "placed(i2)" is perminv(i2) < idx4.
+//@ loop 4: invariant len(row) == len(table) && len(entry) == len(table)*len(table[0]) && 0 <= maxIndex
+//@ loop 4: invariant forall i2, k int :: 0 <= i2 && i2 < len(table) && perminv(i2) < idx4 && spec_nz(table, i2, k) ==>
+//@     0 <= row[i2]+k && row[i2]+k <= maxIndex && entry[row[i2]+k]
+//@ loop 4: invariant forall i1, k1, i2, k2 int :: 0 <= i1 && i1 < len(table) && perminv(i1) < idx4 && spec_nz(table, i1, k1) &&
+//@     0 <= i2 && i2 < len(table) && perminv(i2) < idx4 && spec_nz(table, i2, k2) && row[i1]+k1 == row[i2]+k2 ==> i1 == i2
+//@ loop 4: invariant forall p int :: p > maxIndex ==> !entry[p]
+//@ loop 4: invariant idx4 == 0 ==> (forall p int :: !entry[p])
+//@ loop 4: invariant idx4 >= 1 ==> maxIndex < idx4*len(table[0])
+//@ loop 5: invariant len(row) == len(table) && 0 <= row[i] && row[i] <= maxIndex+1 && (idx4 == 0 ==> row[i] == 0)
+//@ loop 5: invariant forall i2 int :: 0 <= i2 && i2 < len(table) && i2 != i ==> row[i2] == before(row[i2])
+//@ loop 5: decreases maxIndex + 1 - row[i]
+//@ loop 6: invariant row == before(row)
+//@ loop 6: invariant forall u int :: 0 <= u && u < idx6 ==> !entry[row[i]+rng6[u]]
+//@ loop 7: invariant len(entry) == before(len(entry)) && maxIndex >= before(maxIndex)
+//@ loop 7: invariant forall u int :: 0 <= u && u < idx7 ==> entry[row[i]+rng7[u]] && row[i]+rng7[u] <= maxIndex
+//@ loop 7: invariant forall p int :: before(entry[p]) ==> entry[p]
+//@ loop 7: invariant forall p int :: entry[p] ==> before(entry[p]) || (exists u int :: 0 <= u && u < idx7 && p == row[i]+rng7[u])
+//@ loop 7: invariant forall p int :: p > maxIndex ==> !entry[p]
+//@ loop 7: invariant maxIndex == before(maxIndex) || (exists u int :: 0 <= u && u < idx7 && maxIndex == row[i]+rng7[u])
+//
+// step 4: output
+//@ loop 8: invariant 0 <= i && i <= maxIndex+1 && len(check) == maxIndex+1
+//@ loop 8: invariant forall p int :: 0 <= p && p < i ==> check[p] == -1
+//@ loop 8: decreases maxIndex + 1 - i
+//@ loop 9: invariant len(ret) == maxIndex+1 && len(check) == maxIndex+1
+//@ loop 9: invariant forall i2, k int :: seen(i2) && 0 <= i2 && i2 < len(table) && spec_nz(table, i2, k) ==>
+//@     ret[row[i2]+k] == table[i2][k] && check[row[i2]+k] == i2
+//@ loop 9: invariant forall p int :: 0 <= p && p <= maxIndex ==> check[p] == -1 ||
+//@     (0 <= check[p] && check[p] < len(table) && seen(check[p]) && spec_nz(table, check[p], p-row[check[p]]))
+//@ loop 10: invariant len(ret) == maxIndex+1 && len(check) == maxIndex+1
+//@ loop 10: invariant forall i2, k int :: seen(i2) && 0 <= i2 && i2 < len(table) && spec_nz(table, i2, k) ==>
+//@     ret[row[i2]+k] == table[i2][k] && check[row[i2]+k] == i2
+//@ loop 10: invariant forall u int :: 0 <= u && u < idx10 ==> ret[row[i]+rng10[u]] == table[i][rng10[u]] && check[row[i]+rng10[u]] == i
+//@ loop 10: invariant forall p int :: 0 <= p && p <= maxIndex ==> check[p] == -1 ||
+//@     (0 <= check[p] && check[p] < len(table) && (seen(check[p]) || check[p] == i) && spec_nz(table, check[p], p-row[check[p]]))
+//
+// trim of leading blank slots: "sh" slots have been cut so far, sh == before(len(ret)) - len(ret)
+//@ loop 11: invariant len(ret) == len(check) && len(row) == len(table) && len(ret) <= before(len(ret))
+//@ loop 11: invariant forall p int :: 0 <= p && p < len(ret) ==> ret[p] == before(ret)[p + before(len(ret)) - len(ret)] && check[p] == before(check)[p + before(len(ret)) - len(ret)]
+//@ loop 11: invariant forall j2 int :: 0 <= j2 && j2 < len(table) ==> row[j2] == before(row)[j2] - (before(len(ret)) - len(ret))
+//@ loop 11: invariant forall p int :: 0 <= p && p < before(len(ret)) - len(ret) ==> before(ret)[p] == 0
+//@ loop 12: invariant 0 <= j && j <= len(row) && len(row) == len(table)
+//@ loop 12: invariant forall j2 int :: 0 <= j2 && j2 < j ==> row[j2] == before(row)[j2] - 1
+//@ loop 12: invariant forall j2 int :: j <= j2 && j2 < len(row) ==> row[j2] == before(row)[j2]
+//@ loop 12: decreases len(row) - j
